@@ -608,7 +608,7 @@ func (fx *FnCtx) globalPtr(g *ssa.Global) Val {
 
 func (v Val) withGlobalDecl(fx *FnCtx, id int) Val {
 	fx.decls.Raw(fmt.Sprintf("(declare-fun %s () Int)", v.ts[0]))
-	fx.decls.Raw(fmt.Sprintf("(assert (= %s %d))", v.ts[0], 1000000+id))
+	fx.decls.Raw(fmt.Sprintf("(assert (= %s %d))", v.ts[0], id))
 	return v
 }
 
